@@ -194,7 +194,7 @@ fn func_ite(ctx: &EvalContext, args: &[Expr]) -> Result<i64, ExprError> {
 }
 
 fn func_sign_ext(_ctx: &EvalContext, _args: &[Expr]) -> Result<i64, ExprError> {
-    todo!("signExt")
+    Err(ExprErrorKind::FunctionNotImplemented("signExt").into())
 }
 
 impl Expr {
